@@ -68,6 +68,13 @@ func init() {
 			panic(err)
 		}
 		name := f.Name()
+		// a file of that name already exists and is longer than the recording will be (a stream re-published
+		// within the same second reuses <stream>-<unix sec>.flv): nothing of it may survive
+		old := 13 + 4096
+		for _, t := range tags {
+			old += 15 + len(t.payload)
+		}
+		_, _ = f.Write(bytes.Repeat([]byte{0xab}, old))
 		f.Close()
 		defer os.Remove(name)
 		var w httpflv.FlvFileWriter
